@@ -56,7 +56,11 @@ def run(ck):
                         if not (rej(8) and not rej(9)): w6.append(f'minimum-length test {lim[0][1]} does not reject 8 bytes and admit 9')
                 continue
             bre = bre_calls[0][3]
-            if p.passed(bre, False):
+            # a search that starts at the '[' cannot return a pointer at or before it: a path that claims so is a guard that
+            # never fires (the byte at brs is '[', the byte found is ']')
+            if bre_calls[0][2][0] == brs and (p.passed(f'({bre} <= {brs})', True) or p.passed(f'({bre} < {brs})', True) or p.passed(f'({brs} >= {bre})', True) or p.passed(f'({brs} > {bre})', True)):
+                continue
+            if p.passed(bre, False) or p.passed(f'({bre} == NULL)', True) or p.passed(f'({bre} != NULL)', False):
                 if rc != '-EEAV_IPADDR_BRACKET_UNPAIR': w6.append(f'missing "]" gives rc = {rc}')
                 continue
             if not fam['valid']:
